@@ -134,7 +134,7 @@ func oracleChangeSets() Oracle {
 			}
 		}
 		cfg := Cfg{Fast: true, IVSet: m.Genesis != 1, IV: m.Genesis}
-		tw := iavl.NewMutableTree(vstore.New(), 0, false, iavl.NewNopLogger(), cfg.options()...)
+		tw := cfg.newTree(vstore.New(), 0, false)
 		defer tw.Close()
 		normal := true
 		for v := m.First; v <= m.Latest; v++ {
